@@ -1,4 +1,6 @@
 mod common;
+mod ded;
+mod glob;
 mod grp;
 mod model;
 mod props;
@@ -20,8 +22,10 @@ fn usage() -> ! {
 fn check(id: &str, tier: Tier) -> i32 {
     match id {
         "C01" => props::grouping::check(Which::C01, tier),
+        "C02" => props::c02::check(tier),
         "C03" => props::grouping::check(Which::C03, tier),
         "C06" => props::c06::check(tier),
+        "C08" => props::c08::check(tier),
         "C13" => props::c13::check(tier),
         "C14" => props::c14::check(tier),
         "C17" => props::c17::check(tier),
@@ -35,8 +39,10 @@ fn check(id: &str, tier: Tier) -> i32 {
 fn replay(id: &str, f: &Path) -> i32 {
     match id {
         "C01" => props::grouping::replay(Which::C01, f),
+        "C02" => props::c02::replay(f),
         "C03" => props::grouping::replay(Which::C03, f),
         "C06" => props::c06::replay(f),
+        "C08" => props::c08::replay(f),
         "C13" => props::c13::replay(f),
         "C14" => props::c14::replay(f),
         "C17" => props::c17::replay(f),
